@@ -16,7 +16,22 @@ var LibLoader = packagelib.Loader{
 	Name: "math",
 }
 
+type rngKeyType struct{}
+
+var rngKey = rt.AsValue(rngKeyType{})
+
+// defaultSeed is the seed of a runtime's generator until math.randomseed is
+// called (the same as Go's global source when it is not auto-seeded).
+const defaultSeed = 1
+
+// rng returns the random generator of the runtime: each runtime has its own,
+// so seeding or drawing numbers in one runtime does not affect another.
+func rng(r *rt.Runtime) *rand.Rand {
+	return r.Registry(rngKey).Interface().(*rand.Rand)
+}
+
 func load(r *rt.Runtime) (rt.Value, func()) {
+	r.SetRegistry(rngKey, rt.AsValue(rand.New(rand.NewSource(defaultSeed))))
 	pkg := rt.NewTable()
 	r.SetEnv(pkg, "huge", rt.FloatValue(math.Inf(1)))
 	r.SetEnv(pkg, "maxinteger", rt.IntValue(math.MaxInt64))
@@ -318,12 +333,12 @@ func rad(t *rt.Thread, c *rt.GoCont) (rt.Cont, error) {
 	return c.PushingNext1(t.Runtime, y), nil
 }
 
-// TODO: have a per runtime random generator
 func random(t *rt.Thread, c *rt.GoCont) (rt.Cont, error) {
 	var (
-		err error
-		m   int64 = 1
-		n   int64
+		err  error
+		m    int64 = 1
+		n    int64
+		rand = rng(t.Runtime)
 	)
 	switch c.NArgs() {
 	case 0:
@@ -392,7 +407,7 @@ func randomseed(t *rt.Thread, c *rt.GoCont) (rt.Cont, error) {
 		// In Go the seed is only 64 bits so we mangle the seeds
 		seed ^= seed2
 	}
-	rand.Seed(seed)
+	rng(t.Runtime).Seed(seed)
 	return c.PushingNext(t.Runtime, rt.IntValue(seed), rt.IntValue(0)), nil
 }
 
